@@ -503,9 +503,51 @@ static bool is_vrq(struct obj *o)
     return o && o->upipe && o->type && (!strcmp(o->type->name, "vreq") || !strcmp(o->type->name, "vreqi") || !strcmp(o->type->name, "vreqr"));
 }
 
+/* one-shot requests of the application: the call-back unregisters the request from the pipe it was
+ * registered on (from inside the provider's call when the answer is given at once).  reg / unreg of the
+ * core are tracked here; an unreg of a request its call-back already unregistered (or a reg of one that is
+ * registered) does nothing and answers -3. */
+static struct upipe *reg_pipe[MAXOBJ];
+static bool oneshot[MAXOBJ];
+static int vreq_index(struct vreq *v) { return (int)(v - reqs); }
+void pd_reqcb_ext(struct vreq *v)
+{
+    int i = vreq_index(v);
+    if (i < 0 || i >= MAXOBJ || !oneshot[i] || reg_pipe[i] == NULL) return;
+    struct upipe *p = reg_pipe[i];
+    reg_pipe[i] = NULL;
+    printf("ucb %s\n", v->name);
+    upipe_unregister_request(p, &v->req);
+}
+
 bool pd_ext_e(int nt, char **tok)
 {
     const char *c = tok[0];
+    if (!strcmp(c, "oneshot") && nt >= 3) {
+        struct vreq *v = find_req(tok[1]);
+        if (v == NULL) { ret(-1); return true; }
+        oneshot[vreq_index(v)] = atoi(tok[2]) != 0;
+        ret(0);
+        return true;
+    }
+    if ((!strcmp(c, "xreg") || !strcmp(c, "xunreg")) && nt >= 3) {
+        /* reg / unreg of the core, with the book-keeping the one-shot requests need */
+        struct upipe *up = find_any(tok[1]);
+        struct vreq *v = find_req(tok[2]);
+        if (up == NULL || v == NULL) { ret(-1); return true; }
+        int i = vreq_index(v);
+        if (c[1] == 'r') {
+            if (reg_pipe[i] != NULL || v->req.registered) { printf("ret -3 registered\n"); return true; }
+            reg_pipe[i] = up;           /* before the call: the answer may come from inside it */
+            int err = upipe_register_request(up, &v->req);
+            ret(err);
+        } else {
+            if (reg_pipe[i] == NULL) { printf("ret -3 notregistered\n"); return true; }
+            reg_pipe[i] = NULL;
+            ret(upipe_unregister_request(up, &v->req));
+        }
+        return true;
+    }
     if (!strcmp(c, "ownreq") && nt >= 4) {
         struct obj *o = find_pipe(tok[3]);
         int t = type_of(tok[2]);
@@ -565,6 +607,8 @@ bool pd_ext_e(int nt, char **tok)
         return true;
     }
     if (!strcmp(c, "xreset")) {
+        memset(reg_pipe, 0, sizeof(reg_pipe));
+        memset(oneshot, 0, sizeof(oneshot));
         /* let pending out-of-band messages (source end, last reference) through */
         for (int it = 0; it < 8192; it++) {
             unsigned a = loops[0] ? vloop_run_once(loops[0]) : 0;
